@@ -106,8 +106,17 @@ def join(
         warnings.simplefilter("always",
                               category=FeatureSetNotIdenticalJoinWarning)
         features = None
+        trace_names = None
         for pp in sorted_paths:
             with new_dataset(pp) as dsc:
+                # The traces can only be joined if every input has the
+                # same set of them (each trace is appended on its own).
+                if "trace" in dsc:
+                    names = sorted(dsc["trace"].keys())
+                    if trace_names is None:
+                        trace_names = names
+                    elif names != trace_names:
+                        trace_names = []
                 # features present
                 if features is None:
                     # The initial features are the innate features of the
@@ -135,6 +144,12 @@ def join(
                                 + "because it is not present in the "
                                 + "other files being joined!",
                                 FeatureSetNotIdenticalJoinWarning)
+        if "trace" in features and trace_names == []:
+            features.remove("trace")
+            warnings.warn(
+                "Excluding feature 'trace', because the files being joined "
+                + "do not have the same fluorescence traces!",
+                FeatureSetNotIdenticalJoinWarning)
         if w:
             logs["dclab-join-feature-warnings"] = common.assemble_warnings(w)
 
